@@ -84,9 +84,13 @@ void ezc3d::DataNS::Points3dNS::Points::point(const ezc3d::DataNS::Points3dNS::P
     if (idx == SIZE_MAX)
         _points.push_back(point);
     else{
-        if (idx >= nbPoints())
+        if (idx >= nbPoints()){
+            // The point may be one of the points of this object: copy it before the storage is moved by the resize
+            ezc3d::DataNS::Points3dNS::Point copy(point);
             _points.resize(idx+1);
-        _points[idx] = point;
+            _points[idx] = copy;
+        } else
+            _points[idx] = point;
     }
 }
 
